@@ -51,16 +51,7 @@ FLOORS = {
 }
 SHARD_TIMEOUT = {"quick": 600, "thorough": 3000}
 
-# one custom command whose class DERIVES from a stock command's class and takes one more
-# required argument, registered in every worker before anything else happens: histories then
-# use the base command (in scripts or through the factory) before or after the derived one
-class RedirectxCommand(lab.sl_commands.RedirectCommand):
-    args_definition = list(lab.sl_commands.RedirectCommand.args_definition) + [
-        {"name": "note", "type": ["string"], "required": True}]
-
-
-lab.sl_commands.add_commands(RedirectxCommand)
-
+# (the derived custom command `redirectx` is registered by rv/parserlab.py in every worker)
 ALL = gen.ALL_EXT_PREAMBLE.decode()
 SCRIPTS = [
     'keep;',
